@@ -400,7 +400,7 @@ func init() {
 			{Name: "placements", Count: countFn(1500, 60000), Run: c03Case},
 			{Name: "uninit", Count: countFn(300, 12000), Run: c03Uninit},
 		},
-		Floors: []core.Floor{{Key: "placements_compared", Quick: 12000, Thor: 1200000}, {Key: "tag:placement:", Quick: 19, Thor: 19}, {Key: "tag:function:", Quick: 8, Thor: 8}, {Key: "stack_growths", Quick: 3000, Thor: 300000}, {Key: "context_clone_reuse", Quick: 500, Thor: 50000}},
+		Floors: []core.Floor{{Key: "placements_compared", Quick: 12000, Thor: 500000}, {Key: "tag:placement:", Quick: 19, Thor: 19}, {Key: "tag:function:", Quick: 8, Thor: 8}, {Key: "stack_growths", Quick: 3000, Thor: 80000}, {Key: "context_clone_reuse", Quick: 500, Thor: 15000}},
 	})
 	core.CaseSeconds["C03/placements"] = 1
 }
